@@ -511,4 +511,112 @@ theorem spec_parseFieldWith {sel : Prog Selection} (hsel : Spec sel (Eats PSel))
     · refine ⟨_, (Ate.peeked a).trans (h1.trans ((Ate.peeked a2).trans h3)), ?_, by simpa [WFSelection] using q3⟩
       exact (derives_field al al args ds ss pos false (fun _ => rfl) q2).cast (by simp [p1, q1]) rfl
 
+theorem Ate.head {a a' : AS} {t : Token} {rest : List Token} (h : Ate a a' (t :: rest)) : a.σ.head = t := by
+  rw [h.σ]; rfl
+
+/-- `parseFragmentName`: a name other than `on` -/
+theorem spec_parseFragmentName : Spec parseFragmentName (Eats fun n u => tk u = [tName n] ∧ n ≠ str "on") := by
+  unfold parseFragmentName
+  refine (Spec.bind spec_peek fun t => Spec.ite (fun _ => Spec.of_dead_bind (R := fun _ _ _ => False) unexpectedError_dead)
+    (fun _ => spec_parseName')).mono ?_
+  rintro n a a'' _ ⟨t, a1, ⟨rfl, rfl⟩, ⟨_, hf⟩ | ⟨hv, u, h1, t', rfl, k1, rfl, _⟩⟩
+  · exact hf.elim
+  · have hh : a.σ.head = t' := h1.head
+    refine ⟨_, (Ate.peeked a).trans h1, by simp [ofToken_name k1], ?_⟩
+    rw [hh] at hv; exact hv
+
+/-- the part of an inline fragment after the type condition -/
+def inlineTail (sel : Prog Selection) (n : Nat) (pos : Pos) (tc : Name) : Prog Selection := do
+  let dirs ← parseDirectives n false
+  let ss ← parseRequiredSelectionSetWith sel n
+  pure (Selection.inline tc dirs ss pos)
+
+theorem parseFragmentWith_eq (sel : Prog Selection) (n : Nat) :
+    parseFragmentWith sel n = (do
+      let _ ← expect .spread
+      let pk ← peek
+      if pk.kind = .name ∧ pk.value ≠ kwOn then do
+        let pos ← peekPos
+        let name ← parseFragmentName
+        let dirs ← parseDirectives n false
+        pure (Selection.spread name dirs pos)
+      else do
+        let pos ← peekPos
+        let t ← peek
+        if t.kind = .name ∧ t.value = kwOn then do
+          let _ ← next
+          let tc ← parseName
+          inlineTail sel n pos tc
+        else inlineTail sel n pos []) := rfl
+
+theorem derives_inline (tc : Name) (ds : List Directive) (ss : Selections) (pos : Pos) {tsSS : List Tok}
+    (hss : Derives gql (.nt .selectionSet) tsSS (printSelectionSet ss)) :
+    Derives gql (.nt .selection)
+      (tP .spread :: ((if tc = [] then [] else [tKw "on", tName tc]) ++ (printDirectives ds ++ tsSS)))
+      (printSelection (.inline tc ds ss pos)) := by
+  have htc : L (.opt (.nt .typeCondition)) (if tc = [] then [] else [tKw "on", tName tc]) := by
+    split
+    · exact L.optNone
+    · exact L.optSome (L.nt (L.cons (L.kw "on") (L.namedType tc)))
+  have hi := Derives.nt (n := NT.inlineFragment)
+    (Derives.seq (L.kind .spread) (Derives.seq htc (Derives.seq (L_optDirectives false ds (by simp)) hss)))
+  exact (Derives.nt (n := NT.selection) (Derives.altR (Derives.altR hi))).cast (by simp)
+    (by simp [printSelection, printSelectionSet])
+
+theorem spec_inlineTail {sel : Prog Selection} (hsel : Spec sel (Eats PSel)) (n : Nat) (pos : Pos) (tc : Name) :
+    Spec (inlineTail sel n pos tc) (Eats fun s u => ∃ ds ss uss, s = .inline tc ds ss pos ∧
+      tk u = printDirectives ds ++ tk uss ∧ PSelSet ss uss) := by
+  unfold inlineTail
+  refine (Spec.bind (spec_parseDirectives n false) fun dirs =>
+    Spec.bind (spec_parseRequiredSelectionSetWith hsel n) fun ss => Spec.pure _).mono ?_
+  rintro s a a'' _ ⟨dirs, a1, ⟨u1, h1, p1⟩, ss, a2, ⟨u2, h2, p2⟩, rfl, rfl⟩
+  exact ⟨_, h1.trans h2, dirs, ss, u2, rfl, by simp [p1.1], p2⟩
+
+theorem spec_parseFragmentWith {sel : Prog Selection} (hsel : Spec sel (Eats PSel)) (n : Nat) :
+    Spec (parseFragmentWith sel n) (Eats PSel) := by
+  rw [parseFragmentWith_eq]
+  refine (Spec.bind (spec_punct .spread (by decide) (by decide) rfl) fun _ => Spec.bind spec_peek fun pk => Spec.ite
+    (fun _ => Spec.bind spec_peekPos fun pos => Spec.bind spec_parseFragmentName fun name =>
+      Spec.bind (spec_parseDirectives n false) fun dirs => Spec.pure _)
+    (fun _ => Spec.bind spec_peekPos fun pos => Spec.bind spec_peek fun t => Spec.ite
+      (fun _ => Spec.bind spec_next fun _ => Spec.bind spec_parseName' fun tc => spec_inlineTail hsel n pos tc)
+      (fun _ => spec_inlineTail hsel n pos []))).mono ?_
+  rintro s a a'' hne ⟨_, a1, ⟨u1, h1, p1⟩, pk, a2, ⟨rfl, rfl⟩,
+    ⟨_, pos, a3, ⟨rfl, _⟩, name, a4, ⟨u2, h2, p2⟩, dirs, a5, ⟨u3, h3, p3⟩, rfl, rfl⟩ |
+    ⟨_, pos, a3, ⟨rfl, _⟩, t, a4, ⟨rfl, rfl⟩,
+      ⟨hk, tn, a5, hn, tc, a6, ⟨u2, h2, p2⟩, u3, h3, ds, ss, uss, rfl, q1, q2⟩ |
+      ⟨hk, u3, h3, ds, ss, uss, rfl, q1, q2⟩⟩⟩
+  · refine ⟨_, h1.trans ((Ate.peeked a1).trans ((Ate.peeked _).trans (h2.trans h3))), ?_, p2.2⟩
+    have := L_selection (.spread name dirs pos) p2.2
+    exact Derives.cast this (by simp [printSelection, p1, p2.1, p3.1]) rfl
+  · have hne1 : a1.σ.NoEof := h1.noEof hne
+    obtain ⟨e1, e2, e3⟩ := next_eats (a := { a1 with pk := true }) (k := .name) hne1 rfl hk.1 (by decide) (by decide) hn
+    have htn : Tok.ofToken tn = tKw "on" := by
+      rw [e1]; simp [Tok.ofToken, tKw, hk.1, hk.2, kwOn]
+    obtain ⟨t', rfl, k1, rfl, ok⟩ := p2
+    have htc : t'.value ≠ [] := ok.2.2 k1
+    refine ⟨_, h1.trans ((Ate.peeked a1).trans (e2.trans (h2.trans h3))), ?_, by
+      simp only [WFSelection]; exact ⟨q2.1, q2.2.1⟩⟩
+    refine (derives_inline t'.value ds ss pos q2.2.2).cast ?_ rfl
+    simp [p1, htn, q1, htc, ofToken_name k1]
+  · refine ⟨_, h1.trans ((Ate.peeked a1).trans h3), ?_, by simp only [WFSelection]; exact ⟨q2.1, q2.2.1⟩⟩
+    refine (derives_inline [] ds ss pos q2.2.2).cast ?_ rfl
+    simp [p1, q1]
+
+/-- `Selection` -/
+theorem spec_parseSelection : ∀ n, Spec (parseSelection n) (Eats PSel)
+  | 0 => Spec.of_dead (outOfFuel_dead _)
+  | n + 1 => by
+    have ih := spec_parseSelection n
+    unfold parseSelection
+    refine (Spec.bind spec_peek fun t => Spec.ite (fun _ => spec_parseFragmentWith ih (n + 1))
+      (fun _ => spec_parseFieldWith ih (n + 1))).mono ?_
+    rintro s a a'' _ ⟨t, a1, ⟨rfl, rfl⟩, ⟨_, u, h, p⟩ | ⟨_, u, h, p⟩⟩
+    · exact ⟨u, (Ate.peeked a).trans h, p⟩
+    · exact ⟨u, (Ate.peeked a).trans h, p⟩
+
+/-- `SelectionSet` -/
+theorem spec_parseRequiredSelectionSet (n : Nat) : Spec (parseRequiredSelectionSet n) (Eats PSelSet) :=
+  spec_parseRequiredSelectionSetWith (spec_parseSelection n) n
+
 end Gql.Parser
